@@ -17,10 +17,10 @@ ASSUMPTIONS = [
 def T(name, *ops, **kw):
     d = {'name': name, 'ops': list(ops)}; d.update(kw); return d
 
-def S(name, threads, pool_max=0, queues=1, R=3, B=14, oracles=(), order=None, pool_slots=None, cap=3):
+def S(name, threads, pool_max=0, queues=1, R=3, B=14, oracles=(), order=None, pool_slots=None, cap=3, witness=None):
     sc = {'name': name, 'pool_max': pool_max, 'queues': queues, 'threads': threads}
     if pool_slots is not None: sc['pool_slots'] = pool_slots
-    return {'name': name, 'scen': sc, 'R': R, 'B': B, 'oracles': list(oracles), 'order': order, 'cap': cap,
+    return {'name': name, 'scen': sc, 'R': R, 'B': B, 'oracles': list(oracles), 'order': order, 'cap': cap, 'witness': witness,
             'bounds': {'R': R, 'B': B, 'CAP': cap, 'threads': len(threads) + (pool_slots if pool_slots is not None else pool_max), 'pool_max': pool_max}}
 
 BASE = ('panic', 'overlap', 'ran_twice')
@@ -50,7 +50,7 @@ def scenarios(prop, tier, seed=0):
                    oracles=BASE + ('quiescent_complete',)))
         L.append(S('c03_p1_desync_try', [T('A', ('desync', 0)), T('B', ('try_sync', 0))], pool_max=1, R=3, B=14,
                    oracles=BASE + ('quiescent_complete',)))
-        L.append(S('c03_p1_stale_entry', [T('A', ('desync', 0, GATE)), T('B', ('desync', 1), ('sync', 1), ('desync', 2)), T('W', ('open_gate', 0))], pool_max=1, queues=3, R=3, B=16,
+        if not q: L.append(S('c03_p1_stale_entry', [T('A', ('desync', 0, GATE)), T('B', ('desync', 1), ('sync', 1), ('desync', 2)), T('W', ('open_gate', 0))], pool_max=1, queues=3, R=3, B=16,
                    oracles=BASE + ('quiescent_complete',)))
         if not q:
             L.append(S('c03_p1_desync_desync_sync', [T('A', ('desync', 0), ('desync', 0)), T('B', ('sync', 0))], pool_max=1, R=3, B=16,
@@ -66,7 +66,7 @@ def scenarios(prop, tier, seed=0):
                    oracles=BASE + ('results', 'deadlock')))
         L.append(S('c04_p1_gate_desync_sync', [T('A', ('desync', 0, GATE)), T('B', ('sync', 0)), T('W', ('open_gate', 0))],
                    pool_max=1, R=3, B=14, oracles=BASE + ('results', 'deadlock')))
-        L.append(S('c04_p1_fut_sync_busy_pool', [T('A', ('future_desync', 0, {'fut': ('gate', 0), 'as': 'f'}), ('detach', 'f'), ('desync', 1, {'acts': ['enter', ('gate', 1), 'exit']})), T('B', ('sync', 0)), T('W', ('open_gate', 0))],
+        if not q: L.append(S('c04_p1_fut_sync_busy_pool', [T('A', ('future_desync', 0, {'fut': ('gate', 0), 'as': 'f'}), ('detach', 'f'), ('desync', 1, {'acts': ['enter', ('gate', 1), 'exit']})), T('B', ('sync', 0)), T('W', ('open_gate', 0))],
                    pool_max=1, queues=2, R=3, B=16, oracles=BASE + ('results', 'deadlock')))
         if not q:
             L.append(S('c04_p1_sync_sync', [T('A', ('sync', 0)), T('B', ('sync', 0)), T('C', ('desync', 0))], pool_max=1, R=3, B=14,
@@ -77,7 +77,7 @@ def scenarios(prop, tier, seed=0):
         L.append(S('c01_p1_desync_sync', [T('A', ('desync', 0)), T('B', ('sync', 0))], pool_max=1, R=3, B=14, oracles=BASE))
         L.append(S('c01_p1_desync_try', [T('A', ('desync', 0)), T('B', ('try_sync', 0))], pool_max=1, R=3, B=14, oracles=BASE))
         L.append(S('c01_p0_sync_sync_try', [T('A', ('sync', 0)), T('B', ('sync', 0)), T('C', ('try_sync', 0))], pool_max=0, R=3, B=14, oracles=BASE))
-        L.append(S('c01_p0_fut_sync_sync', [T('A', ('future_desync', 0, {'fut': ('gate', 0), 'as': 'f'}), ('detach', 'f'), ('sync', 0)), T('B', ('sync', 0)), T('W', ('open_gate', 0))], pool_max=0, R=3, B=16, oracles=BASE))
+        if not q: L.append(S('c01_p0_fut_sync_sync', [T('A', ('future_desync', 0, {'fut': ('gate', 0), 'as': 'f'}), ('detach', 'f'), ('sync', 0)), T('B', ('sync', 0)), T('W', ('open_gate', 0))], pool_max=0, R=3, B=16, oracles=BASE))
         if not q:
             L.append(S('c01_p1_desync_sync_try', [T('A', ('desync', 0)), T('B', ('sync', 0)), T('C', ('try_sync', 0))], pool_max=1, R=3, B=14, oracles=BASE))
             L.append(S('c01_p1_desync2_sync', [T('A', ('desync', 0), ('desync', 0)), T('B', ('sync', 0))], pool_max=1, R=3, B=16, oracles=BASE))
@@ -93,12 +93,12 @@ def scenarios(prop, tier, seed=0):
             L.append(S('c02_p1_desync_try_sync', [T('A', ('desync', 0), ('try_sync', 0)), T('B', ('sync', 0))], pool_max=1, R=3, B=16, oracles=BASE + ('order',)))
     elif prop == 'C10':
         L.append(S('c10_p2_gate_other', [T('A', ('desync', 0, GATE)), T('B', ('desync', 1))], pool_max=2, queues=2, R=(2 if q else 3), B=16,
-                   oracles=BASE + ('independent',)))
-        L.append(S('c10_p2_stale_entry', [T('A', ('desync', 0, GATE)), T('B', ('desync', 1), ('sync', 1), ('desync', 2))], pool_max=2, queues=3, R=(2 if q else 3), B=18,
-                   oracles=BASE + ('independent',)))
+                   oracles=BASE + ('independent',), witness='ungated_done'))
+        if not q: L.append(S('c10_p2_stale_entry', [T('A', ('desync', 0, GATE)), T('B', ('desync', 1), ('sync', 1), ('desync', 2))], pool_max=2, queues=3, R=(2 if q else 3), B=18,
+                   oracles=BASE + ('independent',), witness='ungated_done'))
         if not q:
             L.append(S('c10_p2_gate_sync_other', [T('A', ('desync', 0, GATE)), T('B', ('sync', 0)), T('C', ('desync', 1))], pool_max=2, queues=2, R=3, B=14,
-                       oracles=BASE + ('independent',)))
+                       oracles=BASE + ('independent',), witness='ungated_done'))
     elif prop == 'C17':
         L.append(S('c17_p1_two_spawners', [T('A', ('desync', 0)), T('B', ('desync', 1))], pool_max=1, pool_slots=2, queues=2, R=3, B=14,
                    oracles=BASE + ('pool_max',)))
